@@ -1,0 +1,50 @@
+//go:build verif
+
+// Contracts for the govc deductive verifier (see /verif/DESIGN.md). This file
+// contains comments only and is compiled only with the build tag "verif".
+
+package net
+
+// ---------------------------------------------------------------------------
+// Destination policy (C05). `forbidden` is transcribed from the property
+// statement; `public` is "well-formed and outside every IANA special-purpose
+// block", so that additionally rejecting e.g. 198.18/15 would not alarm.
+// IPv4 blocks match the 4-byte form and the 16-byte IPv4-mapped form.
+// ---------------------------------------------------------------------------
+
+//@ pred forbidden(ip IP) := cidr(ip, "127.0.0.0/8") || cidr(ip, "0.0.0.0/32") || cidr(ip, "169.254.0.0/16") \
+//@    || cidr(ip, "224.0.0.0/4") || cidr(ip, "255.255.255.255/32") \
+//@    || cidr(ip, "10.0.0.0/8") || cidr(ip, "172.16.0.0/12") || cidr(ip, "192.168.0.0/16") || cidr(ip, "100.64.0.0/10") \
+//@    || cidr(ip, "::1/128") || cidr(ip, "::/128") || cidr(ip, "fe80::/10") || cidr(ip, "ff00::/8") || cidr(ip, "fc00::/7")
+
+//@ pred special4(ip IP) := cidr(ip, "0.0.0.0/8") || cidr(ip, "10.0.0.0/8") || cidr(ip, "100.64.0.0/10") || cidr(ip, "127.0.0.0/8") \
+//@    || cidr(ip, "169.254.0.0/16") || cidr(ip, "172.16.0.0/12") || cidr(ip, "192.0.0.0/24") || cidr(ip, "192.0.2.0/24") \
+//@    || cidr(ip, "192.88.99.0/24") || cidr(ip, "192.168.0.0/16") || cidr(ip, "198.18.0.0/15") || cidr(ip, "198.51.100.0/24") \
+//@    || cidr(ip, "203.0.113.0/24") || cidr(ip, "224.0.0.0/4") || cidr(ip, "240.0.0.0/4")
+
+//@ pred special6(ip IP) := cidr(ip, "::/128") || cidr(ip, "::1/128") || cidr(ip, "64:ff9b::/96") || cidr(ip, "64:ff9b:1::/48") \
+//@    || cidr(ip, "100::/64") || cidr(ip, "2001::/23") || cidr(ip, "2001:db8::/32") || cidr(ip, "2002::/16") \
+//@    || cidr(ip, "fc00::/7") || cidr(ip, "fe80::/10") || cidr(ip, "ff00::/8")
+
+//@ pred public(ip IP) := (len(ip) == 4 || len(ip) == 16) && !special4(ip) && !special6(ip)
+
+// IsPrivateAddress: the five blocks of the statement are recognised, and nothing
+// outside the special-purpose registries is (two inclusions, so that listing a
+// further reserved block is not an alarm).
+//@ func IsPrivateAddress
+//@   props C05 C18
+//@   loop 1 unroll 12
+//@   ensures[C05,private-blocks-recognised] cidr(ip, "10.0.0.0/8") || cidr(ip, "172.16.0.0/12") || cidr(ip, "192.168.0.0/16") \
+//@       || cidr(ip, "fc00::/7") || cidr(ip, "100.64.0.0/10") ==> result
+//@   ensures[C05,only-special-blocks] result ==> special4(ip) || special6(ip)
+
+//@ func RequirePublicIP
+//@   props C05 C18
+//@   ensures[C05,forbidden-rejected] forbidden(ip) ==> result != nil
+//@   ensures[C05,malformed-rejected] len(ip) != 4 && len(ip) != 16 ==> result != nil
+//@   ensures[C05,public-accepted] public(ip) ==> result == nil
+
+//@ func NewConnectionError
+//@   props C18
+//@   fresh
+//@   ensures result != nil && result.Status == status && result.Message == message && result.Cause == cause
